@@ -1191,6 +1191,46 @@ func (env *SpecEnv) call(x *ast.CallExpr, subs map[string]*SpecExpr) SV {
 			r := env.expr(x.Args[0], subs)
 			env.st = saved
 			return r
+		case "ret":
+			// ret(k, f(...)): k-th result of a multi-result call
+			kv := env.expr(x.Args[0], subs)
+			if kv.C == nil {
+				sfail("ret: first argument must be a constant index")
+			}
+			k64, _ := constant.Int64Val(kv.C)
+			r := env.expr(x.Args[1], subs)
+			tv, ok := r.V.(TupleVal)
+			if !ok || int(k64) >= len(tv) {
+				sfail("ret: second argument is not a multi-result call")
+			}
+			var T types.Type
+			if ce, ok := x.Args[1].(*ast.CallExpr); ok {
+				T = env.resultType(ce, int(k64))
+			}
+			v := tv[k64]
+			if t, ok := v.(Term); ok && T != nil {
+				t.Signed = isSigned(T)
+				v = t
+			}
+			return SV{V: v, T: T}
+		case "prev":
+			// value at the head of the current iteration (state and loop variables)
+			if env.fr == nil || env.fr.iterStart == nil || env.fr.iterStart[env.fr.curLoop] == nil {
+				sfail("prev() outside a loop step contract")
+			}
+			saved := env.st
+			env.st = env.fr.iterStart[env.fr.curLoop]
+			savedEnv := map[ssa.Value]Val{}
+			for k, v := range env.fr.iterPhis[env.fr.curLoop] {
+				savedEnv[k] = env.fr.env[k]
+				env.fr.env[k] = v
+			}
+			r := env.expr(x.Args[0], subs)
+			for k, v := range savedEnv {
+				env.fr.env[k] = v
+			}
+			env.st = saved
+			return r
 		case "entry":
 			// value at entry to the loop whose invariant is being evaluated
 			if env.fr == nil || env.fr.loopEntry == nil || env.fr.loopEntry[env.fr.curLoop] == nil {
@@ -1438,6 +1478,27 @@ func (env *SpecEnv) call(x *ast.CallExpr, subs map[string]*SpecExpr) SV {
 					obj, _, _ = types.LookupFieldOrMethod(recv.T, true, n.Obj().Pkg(), sel.Sel.Name)
 				}
 			}
+			if si, ok := recv.V.(SymIface); ok {
+				mf, ok := obj.(*types.Func)
+				if !ok {
+					sfail("no method %s on symbolic interface", sel.Sel.Name)
+				}
+				sig := mf.Type().(*types.Signature)
+				var as []Val
+				for i, a := range x.Args {
+					sv := env.expr(a, subs)
+					if sv.C != nil {
+						as = append(as, vc.constOf(sv.C, sig.Params().At(i).Type()))
+					} else {
+						as = append(as, sv.V)
+					}
+				}
+				rets := vc.symMethodResults(env.st, si, mf.FullName(), sig, as)
+				if len(rets) == 1 {
+					return SV{V: rets[0], T: sig.Results().At(0).Type()}
+				}
+				return SV{V: TupleVal(rets)}
+			}
 			if mf, ok := obj.(*types.Func); ok {
 				fn := vc.eng.prog.FuncValue(mf)
 				if fn == nil {
@@ -1649,6 +1710,9 @@ func (vc *VC) evalPure(fn *ssa.Function, args []Val, st *State, parent *Frame) [
 }
 
 func (vc *VC) callStaticPure(fn *ssa.Function, args []Val, st *State, parent *Frame) []Outcome {
+	if h, ok := extHandlers[fn.String()]; ok {
+		return h(vc, parent, st, args, token.NoPos)
+	}
 	return vc.callFunction(fn, args, nil, st, parent)
 }
 
@@ -1900,4 +1964,31 @@ func (env *SpecEnv) expandBounded(se *SpecExpr) (SV, bool) {
 		}
 	}
 	return SV{V: And(conj...), T: types.Typ[types.Bool]}, true
+}
+
+
+// resultType finds the static type of the k-th result of a call expression in a spec.
+func (env *SpecEnv) resultType(ce *ast.CallExpr, k int) types.Type {
+	if sel, ok := ce.Fun.(*ast.SelectorExpr); ok {
+		defer func() { recover() }()
+		recv := env.expr(sel.X, nil)
+		if recv.T != nil {
+			obj, _, _ := types.LookupFieldOrMethod(recv.T, true, env.typesPkg(), sel.Sel.Name)
+			if mf, ok := obj.(*types.Func); ok {
+				rs := mf.Type().(*types.Signature).Results()
+				if k < rs.Len() {
+					return rs.At(k).Type()
+				}
+			}
+		}
+		if pr, ok := recv.V.(pkgRef); ok {
+			if o, ok := pr.p.Scope().Lookup(sel.Sel.Name).(*types.Func); ok {
+				rs := o.Type().(*types.Signature).Results()
+				if k < rs.Len() {
+					return rs.At(k).Type()
+				}
+			}
+		}
+	}
+	return nil
 }
